@@ -6,20 +6,7 @@ import (
 	"github.com/flowmatters/openwater-core/zzverif/vsym"
 )
 
-// c01onev_ELEMTYPE: root array plus one arbitrary in-bounds stepped slice of it; returns root,
-// view, view extents and the affine map (org, stp, off) from view index to storage cell.
-func c01onev_ELEMTYPE(tag string, r *ndELEMTYPE, n []int) (NDELEMTITLE, []int, []int, []int) {
-	loc, dims, step := c01slice_ELEMTYPE(tag, n)
-	return r.Slice(loc, dims, step), dims, loc, step
-}
 
-func c01cell_ELEMTYPE(idx, org, stp, off []int) int {
-	c := 0
-	for a := range idx {
-		c += (org[a] + idx[a]*stp[a]) * off[a]
-	}
-	return c
-}
 
 func c01apply_ELEMTYPE(rank int) {
 	r, n, off := c01root_ELEMTYPE(rank)
